@@ -6,7 +6,7 @@ import gen.pmtlib as L
 from gen.pmtlib import fmt_val
 
 PROP = "C06"
-PROOF_FILES = ["Properties/C06.v"]
+PROOF_FILES = ["Properties/C06.v", "Properties/ModelTie.v"]
 RULE = ("random LOGICAL program map sections (0-12 streams; descriptor shapes none/few/empty/255-byte/many-small/mixed; "
         "section_length up to 1021) serialised by the Coq spec (ser.payload) in carriers with pointer_field 0..182, 0-2 "
         "preceding other sections, trailing 0xFF stuffing; through NewPMT, PmtAccumulatorDoneFunc on EVERY prefix, ExtractCRC, "
